@@ -469,3 +469,22 @@ func min(a, b int) int {
 	}
 	return b
 }
+
+// Degenerate turns a mutating call into a variant whose arguments ask for "no change" or sit on a boundary - the zero
+// time, the current size, the current mode, owner -1/-1, empty data: values for which a wrapper may wrongly decide that
+// the call needs no checking. size and mode describe the operand in the pre-state (0 if unknown).
+func Degenerate(r *rand.Rand, o fsx.Op, size int64, mode uint32) fsx.Op {
+	switch o.K {
+	case "Chtimes":
+		o.N = -1
+	case "Truncate", "F.Truncate":
+		o.N = size
+	case "Chmod", "F.Chmod":
+		o.Perm = mode
+	case "Chown", "Lchown", "F.Chown":
+		o.N, o.M = -1, -1
+	case "WriteFile", "F.Write", "F.WriteString", "F.WriteAt", "OpenWriteClose":
+		o.Data = ""
+	}
+	return o
+}
